@@ -197,6 +197,7 @@ int main(int argc, char **argv)
 	if (argc >= 3 && !strcmp(argv[1], "sweep"))
 		return sweep(argv[2], argc > 3 ? atoi(argv[3]) : 16);
 	char line[256], op[32];
+	setvbuf(stdout, NULL, _IOLBF, 0); /* keep output up to a crash */
 	while (fgets(line, sizeof line, stdin)) {
 		unsigned long long a = 0, b = 0, c = 0, d = 0;
 		int n = sscanf(line, "%31s %llu %llu %llu %llu", op, &a, &b, &c, &d);
